@@ -33,6 +33,11 @@ type composeSpec struct {
 	oracles map[string]func(fn *ssa.Function) oracleFunc // ShortKey of callee -> outcomes
 	cases   []composeCase
 	judge   func(it *Interp, ctx interface{}, st *State) string // "" = the path agrees with the stated combination
+	// intervals: float intervals are propagated through arithmetic (interp_intervals.go)
+	intervals bool
+	// anyPath: judge every finished path, whatever it branched on (the judge
+	// reads ranges from the state, not a history)
+	anyPath bool
 	// terms: floats carry their rational function (interp_terms.go); paths that
 	// also branch on comparisons between such floats are judged too (the
 	// comparison is available to the judge as a fact)
@@ -152,6 +157,7 @@ func ruleCompose(mk func(thorough bool) []composeSpec, floor int) ruleFunc {
 			}
 			it.Oracles = map[*ssa.Function]oracleFunc{}
 			it.Terms = sp.terms
+			it.Intervals = sp.intervals
 			it.NonNeg, it.Positive = nil, nil
 			missing := ""
 			var okeys []string
@@ -204,7 +210,7 @@ func ruleCompose(mk func(thorough bool) []composeSpec, floor int) ruleFunc {
 					}
 					judged, skipped, infeasible := 0, 0, 0
 					for _, st := range it.Finished {
-						if !onlyOracleTrail(st, sp.terms) {
+						if !sp.anyPath && !onlyOracleTrail(st, sp.terms) {
 							skipped++
 							continue
 						}
